@@ -68,7 +68,10 @@ fn main() {
          keys: other ZSK, no-ZONE key, revoked key, injected attacker key, sibling-zone key) / records added-removed / \
          received TTLs / DNSKEY-set edits, SEVERAL RRSIGs over the RRset in every order (all ordered pairs of {valid, expired, future, wrong key tag, broken, \
          50 s left, other key, sibling zone}, ordered triples, a valid one behind 7..10 broken ones; before / after the records), \
-         an injection family (ONE extra record at every position of the answer section that \
+         the OWNER of the key record as its own dimension (the DNSKEY answer carries the genuine RRset plus an extra, itself Secure \
+         DNSKEY RRset owned by {the zone, a descendant, a deeper descendant, an ancestor, a sibling, the zone in other case} holding \
+         {the genuine key, another trusted key}; RRSIG made with it, signer field in {zone, that owner, ancestor}, key tag matching / \
+         off by one), an injection family (ONE extra record at every position of the answer section that \
          differs from a genuine record in exactly one of RDATA / class {CH,HS,NONE,ANY,0x00fe} / TTL / owner case / owner, plus \
          class + new RDATA), a clock grid (now = inception/expiration -2..+2, midpoints, +-2^31; windows \
          plain, across the u32 wrap, lengths 0,1,2^31-1,2^31,2^31+1) applied to the answer RRSIG and to the DNSKEY RRSIG, \
@@ -130,6 +133,7 @@ fn main() {
         }
         v.push(Block::List(gen::field_replacements(b)));
         v.push(Block::List(gen::injections(b)));
+        v.push(Block::List(gen::key_owners(b)));
         v.push(Block::List(gen::multi_sigs(b, thorough, thorough || b.name.contains("ED25519"))));
         if thorough || core {
             v.push(Block::List(gen::clock_grid(b, thorough)));
